@@ -145,7 +145,7 @@ def run_batch(cases: list[Case], timeout: float | None = None, steps="reach", en
         }
         if env_extra:
             env.update(env_extra)
-        to = timeout or (120 + 30 * len(cases))
+        to = timeout or (480 + 90 * len(cases))  # generous: a loaded machine must not turn a slow run into "inconclusive"
         if steps in (True, "all") and not timeout:
             # a run that does not terminate has to be able to use up its step budget before the wall clock ends it: the
             # verdict on non-termination is the logical one (violation), the watchdog only ever yields "inconclusive"
